@@ -14,7 +14,9 @@ import (
 
 var crcTab = crc64.MakeTable(crc64.ISO)
 
-func docKey(repo, name string, sum []byte) string { return fmt.Sprintf("%s\x00%s\x00%x", repo, name, sum) }
+func docKey(repo string, id uint32, name string, sum []byte) string {
+	return fmt.Sprintf("%s\x00%d\x00%s\x00%x", repo, id, name, sum)
+}
 
 // Index maps (repository, file name, checksum of the stored content) to document numbers (1-based).
 func (c *Corpus) Index() map[string][]int {
@@ -23,7 +25,7 @@ func (c *Corpus) Index() map[string][]int {
 		d := &c.Docs[i]
 		h := crc64.New(crcTab)
 		h.Write([]byte(d.Effective()))
-		k := docKey(c.Repos[d.Repo].Name, d.Name, h.Sum(nil))
+		k := docKey(c.Repos[d.Repo].Name, c.Repos[d.Repo].ID, d.Name, h.Sum(nil))
 		res[k] = append(res[k], i+1)
 	}
 	return res
@@ -56,7 +58,7 @@ const (
 func (c *Corpus) Files(idx map[string][]int, res *zoekt.SearchResult, detail int) []M {
 	out := []M{}
 	for _, f := range res.Files {
-		cands := idx[docKey(f.Repository, f.FileName, f.Checksum)]
+		cands := idx[docKey(f.Repository, f.RepositoryID, f.FileName, f.Checksum)]
 		doc := 0
 		if len(cands) >= 1 {
 			doc = cands[0]
